@@ -29,6 +29,8 @@ def run(chk, w):
     enum_c = calls_to(lambda c: c.callee == "bidib_state_init_allocation_table")
     feat_c = calls_to(lambda c: c.callee in P.functions and _sends_type(P, S, c.callee, w.macro("MSG_FEATURE_SET")) and c.callee != reset.name)
     enable_c = calls_to(lambda c: c.callee in P.functions and _sends_type(P, S, c.callee, w.macro("MSG_SYS_ENABLE"), direct=True))
+    # ... or the enable message built in place (the sender inlined into the reset routine)
+    enable_c += [c for c in reset.calls() if c.callee in S.constructors and rules.const_of(reset, S.type_arg(c)) == w.macro("MSG_SYS_ENABLE")]
     go_c = calls_to(lambda c: len(c.args) == 1 and rules.const_of(reset, c.args[0]) == GO and rules.call_reaches(P, c, {"bidib_send_cs_set_state"}))
     init_c = calls_to(lambda c: c.callee == "bidib_state_set_initial_values")
     flush_c = calls_to(lambda c: c.callee.endswith("flush"))
